@@ -38,11 +38,7 @@ Definition prefilter_find (p : prefilter) : prefn := fun a h =>
   match pk p with
   | PkVec w =>
       if length h <? pw_min w then find_simple p a h else pw_find_prefilter w h
-  | PkFallback f =>
-      match ar with
-      | AX86 c => pf_find_prefilter c f a h
-      | _ => pf_find_prefilter NoSimd f a h      (* not reached on the modelled targets: see searcher_new *)
-      end
+  | PkFallback f => pf_find_prefilter (arch_memchr ar) f a h
   end.
 
 End Prefilter.
